@@ -157,6 +157,8 @@ func genQualifier(t *rapid.T, f map[string]any, o GenOpt) {
 	}
 	if !o.NoDeny && chance(t, "deny", 4) {
 		f["AccessType"] = "deny"
+	} else if chance(t, "allow", 8) {
+		f["AccessType"] = "allow" // the explicit spelling of the default
 	}
 }
 
